@@ -23,7 +23,7 @@ def specs(rng, tier, count):
         dim = 1 + j % 3 if g == "plain" else None
         # anisotropy / rotation combinations are cycled (rotation-only first: isotropic models with angles)
         gm = [1, 0, 2, 3][(j // 3) % 4] if g == "plain" else [1, 0, 2, 3][j % 4]
-        out.append(KC.gen_spec(rng, variant=v, geo=g, dim=dim, tier=tier, mean_nonzero=(v == "Simple" and i % 2 == 0), geom_mode=gm, drift_mode=(j + 3),
+        out.append(KC.gen_spec(rng, variant=v, geo=g, dim=dim, tier=tier, mean_nonzero=(v == "Simple" and i % 2 == 0), geom_mode=gm, drift_mode=(j + 3), norm_class=KC.NORM_CLASSES[i % 6],
                            var_scale=([1e-10, 1e8, 1e-13][(i // 7) % 3] if i % 7 == 3 else None)))
     # option cells of the base class: functional drift kind x number of external drifts x unbiased, cycled over
     # geometries, exact / cond_err kinds, inverse routines, chunk sizes and mesh types (random inside gen_spec)
@@ -92,6 +92,13 @@ def run(ctx, only=None):
             n = 140 if ctx.tier == "quick" else 2400
             for spec in specs(rng, ctx.tier, n):
                 one_case(ctx, drv, rng, spec, stats)
+            # the cond_err guard (exact=True excludes explicit measurement errors) on every route / value class
+            for v_ in (("Simple", "ExtDrift") if ctx.tier == "quick" else KC.VARIANTS + ["Krige"]):
+                KC.probe_cond_err_guard(ctx, drv, rng, KC.gen_spec(rng, variant=v_, geo="plain", dim=2, tier="quick", allow_norm=False, n=6, m=3), stats)
+            # single-point / few-point targets ON conditioning points, rotated + anisotropic models at UTM-scale coordinates
+            for r_ in range(1 if ctx.tier == "quick" else 4):
+                for v_ in ("Ordinary", "Universal"):
+                    KC.probe_single_targets(ctx, drv, KC.gen_utm(rng, v_), stats)
             # auto-fitted models: the object must solve the system of its FINAL model
             k = 0
             for rep in range(1 if ctx.tier == "quick" else 5):
